@@ -21,6 +21,12 @@ from .common import short
 from .sib import FSDP, HSDP, sibling_pairs
 
 
+def _root_name(e: ast.AST) -> str | None:
+    while isinstance(e, (ast.Attribute, ast.Subscript, ast.Call)):
+        e = e.func if isinstance(e, ast.Call) else e.value
+    return e.id if isinstance(e, ast.Name) else None
+
+
 def recovery_rules(ctx, rep, prefix: str, classes: list[str]) -> None:
     repo = ctx.repo
     pts = ctx.engine("pts")
@@ -29,9 +35,15 @@ def recovery_rules(ctx, rep, prefix: str, classes: list[str]) -> None:
         outer = ci.methods.get("_split_tensor_block_recovery")
         if outer is None:
             raise AnalysisError(f"{ci.name}._split_tensor_block_recovery not found")
-        if len(outer.inner) != 1:
-            raise AnalysisError(f"{ci.name}._split_tensor_block_recovery: expected one nested recursive helper, found {len(outer.inner)}")
         inner = A.worker(repo, outer)
+        # offsets inside the helper are relative to the helper's current block: every narrow / view is applied to that block,
+        # and the enclosing routine's whole shard is not touched from inside the helper (another coordinate space)
+        blk = inner.params[0]
+        outer_shard = outer.params[0]
+        cuts = [c for c in A.calls(inner.node, nested=True) if isinstance(c.func, ast.Attribute) and c.func.attr in ("narrow", "view", "__getitem__", "select", "split")]
+        wrong = [c for c in cuts if c.func.attr == "narrow" and _root_name(c.func.value) != blk]
+        leaks = [n for n in ast.walk(inner.node) if isinstance(n, ast.Name) and n.id == outer_shard and outer_shard != blk]
+        rep.ob(f"{prefix}.1", f"coordinates:{ci.name}:narrow-on-the-current-block", bool(cuts) and not wrong and not leaks, inner.loc(wrong[0] if wrong else (leaks[0] if leaks else None)), f"{len(cuts)} narrow/view call(s) in the recursive helper: each narrows `{blk}` (offsets are block-relative)" + (f"; `{ast.unparse(wrong[0])[:80]}` narrows something else" if wrong else "") + (f"; the helper refers to the enclosing routine's `{outer_shard}`" if leaks else ""), sample=True)
         # ---- .1 views only
         ret = set()
         for fr in pts.frames_of(outer.qual):
